@@ -15,7 +15,7 @@
                      content or one of the contents the run saves for it; crash_of ops t: t is a
                      prefix of ops, possibly followed by a partially performed write. *)
 From PV Require Import Lib.Bytes Model.FsProto Spec.CrashSpec
-  Proofs.FsProto Proofs.FsProtoFault Proofs.FsProtoVariants.
+  Proofs.FsProto Proofs.FsProtoFault Proofs.FsProtoVariants Proofs.FsProtoForeign.
 Open Scope N_scope.
 
 (* crash: for ALL lists of actions (saves of any files with any contents, mode fixes,
@@ -78,7 +78,7 @@ Print Assumptions C05_no_leftover_tmp.
 Theorem C05_save_preserves_mode : forall (s : state) (f : path) (new : str) (old : file),
   lookup (tmp_name f) (st_fs s) = None -> lookup f (st_fs s) = Some old ->
   let s' := exec (save_ops s f new) s in
-  lookup f (st_fs s') = Some (mkfile new (f_mode old)) /\ lookup (tmp_name f) (st_fs s') = None.
+  lookup f (st_fs s') = Some (mkfile KReg new (f_mode old)) /\ lookup (tmp_name f) (st_fs s') = None.
 Proof. exact save_preserves_mode. Qed.
 Print Assumptions C05_save_preserves_mode.
 
@@ -113,12 +113,66 @@ Theorem C05_atomic_okb_sound : forall init prog cur,
 Proof. exact atomic_okb_sound. Qed.
 Print Assumptions C05_atomic_okb_sound.
 
+(* ---- entries that do not belong to the run (round 4) ----
+   The initial tree is ANY finite map path -> (kind, bytes, mode): regular files (empty
+   or not), directories, symbolic links, at any names -- also at F.pkglint.tmp for any
+   of the saved files F.  [foreign prog p]: the run neither saves p nor fixes its mode. *)
+
+(* crash: at EVERY crash point (any prefix of the system calls, the next write partially
+   done) every foreign path has exactly the entry it had (kind, bytes, mode; or is absent
+   as before), except a temporary name that was free when the run started.  In
+   particular a pre-existing F.pkglint.tmp of any kind is there, unmodified. *)
+Theorem C05_foreign_entries_untouched_crash : forall (s : state) (prog : list action) (t : list op),
+  crash_of (prog_ops s prog) t ->
+  foreign_untouched_crash prog (st_fs s) (st_fs (exec t s)).
+Proof. exact foreign_untouched_at_crash. Qed.
+Print Assumptions C05_foreign_entries_untouched_crash.
+
+(* complete runs, with no fault or with ANY single failing system call (any k, any errno,
+   any short-write length): every foreign path has exactly the entry it had -- no
+   exception: no temporary file created by the run is left *)
+Theorem C05_foreign_entries_untouched : forall (s : state) (prog : list action) (plan : option (nat * fault)),
+  foreign_untouched prog (st_fs s) (st_fs (w_st (run prog (init_world s plan)))).
+Proof. exact foreign_untouched_fault. Qed.
+Print Assumptions C05_foreign_entries_untouched.
+
+(* "no temporary file that this run created is left", for whole runs under any fault
+   plan: a temporary name that was free before the run (and is not itself a file the
+   run saves) is free after it.  (C05_no_leftover_tmp is the same for one save.) *)
+Theorem C05_no_created_tmp_left : forall (s : state) (prog : list action) (plan : option (nat * fault)) (f : path),
+  ~ In (tmp_name f) (saved_paths prog) ->
+  lookup (tmp_name f) (st_fs s) = None ->
+  lookup (tmp_name f) (st_fs (w_st (run prog (init_world s plan)))) = None.
+Proof. exact no_created_tmp_left. Qed.
+Print Assumptions C05_no_created_tmp_left.
+
+(* an entry of ANY kind at F.pkglint.tmp: the save of F is refused -- the whole file
+   system is as before (F old, the entry untouched), stderr gets the ERROR line
+   "Cannot write" naming F.pkglint.tmp, SaveAutofixChanges reports false -- whatever
+   the fault plan *)
+Theorem C05_taken_tmp_refused : forall (f : path) (new : str) (w : world) (e : file),
+  lookup (tmp_name f) (st_fs (w_st w)) = Some e ->
+  let w' := save_one f new w in
+  w_st w' = w_st w /\ w_stderr w' = w_stderr w ++ [(CannotWrite, tmp_name f)] /\ w_saved w' = false.
+Proof. exact taken_tmp_refused. Qed.
+Print Assumptions C05_taken_tmp_refused.
+
+(* the boolean checker the harness applies to snapshots of real runs (complete runs,
+   killed runs, runs with an injected errno) implies the two statements above *)
+Theorem C05_foreign_bad_sound : forall complete init prog cur,
+  foreign_bad complete init prog cur = None ->
+  forall p, foreign prog p ->
+    (complete = true \/ lookup p init <> None \/ ~ In p (run_tmps prog)) ->
+    lookup p cur = lookup p init.
+Proof. exact foreign_bad_sound. Qed.
+Print Assumptions C05_foreign_bad_sound.
+
 (* ---- the conclusions are not trivial ---- *)
 
 Definition ex_mk : path := [77; 107].          (* "Mk" *)
 Definition ex_pl : path := [80; 76].           (* "PL" *)
 Definition ex_tree : state :=
-  mkstate [(ex_mk, mkfile [111; 108; 100] 493); (ex_pl, mkfile [98; 10; 97; 10] 384)] [] 18.
+  mkstate [(ex_mk, mkfile KReg [111; 108; 100] 493); (ex_pl, mkfile KReg [98; 10; 97; 10] 384)] [] 18.
 Definition ex_prog : list action :=
   [AChmod ex_mk 493; ASave ex_mk [110; 101; 119]; ASave ex_pl [97; 10; 98; 10];
    AIfSaved false ex_pl [98; 10; 97; 10]; ASave ex_mk [110; 101; 119; 50]].
@@ -128,8 +182,8 @@ Definition ex_prog : list action :=
 Example C05_run_example :
   let w := run ex_prog (init_world ex_tree None) in
   length (prog_ops ex_tree ex_prog) = 16%nat /\
-  lookup ex_mk (st_fs (w_st w)) = Some (mkfile [110; 101; 119; 50] 420) /\
-  lookup ex_pl (st_fs (w_st w)) = Some (mkfile [97; 10; 98; 10] 384) /\
+  lookup ex_mk (st_fs (w_st w)) = Some (mkfile KReg [110; 101; 119; 50] 420) /\
+  lookup ex_pl (st_fs (w_st w)) = Some (mkfile KReg [97; 10; 98; 10] 384) /\
   lookup (tmp_name ex_pl) (st_fs (w_st w)) = None /\ w_stderr w = [].
 Proof. vm_compute. repeat split; reflexivity. Qed.
 
@@ -147,8 +201,40 @@ Proof. vm_compute. repeat split; reflexivity. Qed.
 (* a tree that contains PL.pkglint.tmp: the save of PL is refused with an ERROR line,
    both files keep their content *)
 Definition ex_tree2 : state :=
-  mkstate [(ex_pl, mkfile [98; 10; 97; 10] 420); (tmp_name ex_pl, mkfile [120] 420)] [] 18.
+  mkstate [(ex_pl, mkfile KReg [98; 10; 97; 10] 420); (tmp_name ex_pl, mkfile KReg [120] 420)] [] 18.
 Example C05_taken_example :
   let w := run [ASave ex_pl [97; 10; 98; 10]] (init_world ex_tree2 None) in
   w_st w = ex_tree2 /\ w_stderr w = [(CannotWrite, tmp_name ex_pl)] /\ w_saved w = false.
+Proof. vm_compute. repeat split; reflexivity. Qed.
+
+(* every kind of entry at the temporary names: an empty regular file at Mk.pkglint.tmp,
+   a directory at PL.pkglint.tmp; a symbolic link elsewhere.  Both saves are refused, the
+   mode fix is done, every entry but Mk's mode is as before *)
+Definition ex_lnk : path := [76].
+Definition ex_tree3 : state :=
+  mkstate [(ex_mk, mkfile KReg [111; 108; 100] 493); (ex_pl, mkfile KReg [98; 10; 97; 10] 384);
+           (tmp_name ex_mk, mkfile KReg [] 420); (tmp_name ex_pl, mkfile KDir [] 493);
+           (ex_lnk, mkfile KSymlink [47; 120] 511)] [] 18.
+Example C05_kinds_example :
+  let w := run ex_prog (init_world ex_tree3 None) in
+  is_foreignb ex_prog (tmp_name ex_mk) = true /\ is_foreignb ex_prog (tmp_name ex_pl) = true /\
+  lookup (tmp_name ex_mk) (st_fs (w_st w)) = Some (mkfile KReg [] 420) /\
+  lookup (tmp_name ex_pl) (st_fs (w_st w)) = Some (mkfile KDir [] 493) /\
+  lookup ex_lnk (st_fs (w_st w)) = Some (mkfile KSymlink [47; 120] 511) /\
+  lookup ex_mk (st_fs (w_st w)) = Some (mkfile KReg [111; 108; 100] 420) /\
+  List.length (w_stderr w) = 4%nat /\
+  foreign_bad true (st_fs ex_tree3) ex_prog (st_fs (w_st w)) = None.
+Proof.
+  vm_compute. repeat split; reflexivity.
+Qed.
+
+(* the checker is not vacuous: the tree after C02-r3m1's behaviour (the refused save also
+   removes the entry at PL.pkglint.tmp) is rejected, and so is a leftover temporary file *)
+Example C05_foreign_bad_rejects :
+  foreign_bad true (st_fs ex_tree2) [ASave ex_pl [97; 10; 98; 10]] [(ex_pl, mkfile KReg [98; 10; 97; 10] 420)]
+    = Some (tmp_name ex_pl) /\
+  foreign_bad true (st_fs ex_tree) [ASave ex_pl [97]] ((tmp_name ex_pl, mkfile KReg [97] 420) :: st_fs ex_tree)
+    = Some (tmp_name ex_pl) /\
+  foreign_bad false (st_fs ex_tree) [ASave ex_pl [97]] ((tmp_name ex_pl, mkfile KReg [97] 420) :: st_fs ex_tree)
+    = None.
 Proof. vm_compute. repeat split; reflexivity. Qed.
